@@ -3,6 +3,8 @@ CONSTANTS
   LegacyBreak = FALSE
   SwapIn = "AN"
   NoShadow = FALSE
+  NoPreCheck = FALSE
+  XParU = {}
   ShallowSub = FALSE
   IgnoreNs = FALSE
   ModSharedPath = FALSE
